@@ -955,6 +955,12 @@ class Interp:
             k = av[0]
             key = k.tag if isinstance(k, Opaque) else (k.path if isinstance(k, Handle) else repr(k))
             yield Handle(ov.path + (('at', key),)), st; return
+        if cn == 'operator=' and len(av) == 2 and isinstance(av[1], Rec) and isinstance(av[0], Rec) and (self.db.get(e.get('cu')) or {}).get('body') is None and getattr(self, 'argexprs', None):
+            # implicit copy / move assignment of a record, written as an operator call: ( target, source )
+            self.lv_set(self.argexprs[0], st, av[1]); yield av[1], st; return
+        if cn == 'operator=' and len(av) == 1 and isinstance(av[0], Rec) and isinstance(ov, Rec) and self.db.get(e.get('cu')) is None:
+            # implicit copy / move assignment of a record
+            self.lv_set(self.objexpr, st, av[0]); yield av[0], st; return
         if isinstance(ov, StackV):
             oe = self.objexpr
             if cn == 'empty': yield Val.const(int(not ov.items)), st; return
